@@ -280,7 +280,19 @@ def param_history_variants():
     d["E"].stderr = 12.5             # bookkeeping of a previous fit
     d["E"].correl = {"contact_point": 0.3}
     d["contact_point"].init_value = 7.0
-    return [("params attr-assignment vs set()", {"params_initial": a}, {"params_initial": b_}),
+    # the same parameters (name, value, limits, vary) added to the container in another order
+    import lmfit
+    e = lmfit.Parameters()
+    for name in reversed(list(b_.keys())):
+        q_ = b_[name]
+        e.add(name, value=q_.value, min=q_.min, max=q_.max, vary=q_.vary)
+    f = lmfit.Parameters()
+    for name in sorted(b_.keys()):
+        q_ = b_[name]
+        f.add(name, value=q_.value, min=q_.min, max=q_.max, vary=q_.vary)
+    return [("params added in reversed order", {"params_initial": e}, {"params_initial": b_}),
+            ("params added in alphabetical order", {"params_initial": f}, {"params_initial": b_}),
+            ("params attr-assignment vs set()", {"params_initial": a}, {"params_initial": b_}),
             ("params set twice", {"params_initial": c}, {"params_initial": b_}),
             ("params with fit bookkeeping", {"params_initial": d}, {"params_initial": b_})]
 
